@@ -37,7 +37,7 @@ Print Assumptions C07_wild_lazy.
 
 (** one capture per wildcard; the field count is checked at compile time *)
 Theorem C07_capture_count : forall pat t caps,
-  kw_captures KWild pat t = Some caps -> length caps = count_stars (unescape_quotes pat).
+  kw_captures KWild pat t = Some caps -> length caps = count_stars pat.
 Proof. exact captures_count. Qed.
 Print Assumptions C07_capture_count.
 
